@@ -46,7 +46,12 @@ CONSTANTS NF,       \* number of futures the environment may schedule
           IdleT,    \* idleTimeout in ticks
           TokCap,   \* capacity of wakeCh
           MaxT,     \* clock bound (never reached in the liveness configuration)
-          KeepHist  \* FALSE: hist stays empty (liveness configuration: no VIEW, finite state space)
+          KeepHist, \* FALSE: hist stays empty (liveness configuration: no VIEW, finite state space)
+          Variant   \* "code": the package as it is.  Wrong variants that TLC must REJECT (they show which atomicity /
+                    \* notification the properties rest on; thorough tier of C13):
+                    \*   "lateDecrement"  a retiring worker decides to leave under the lock but decrements
+                    \*                    cc.watchers in a later critical section (a Call in between counts it as alive)
+                    \*   "quietCancel"    cancel() notifies only when something is left in the queue
 
 VARIABLES now,        \* the clock
           nc,         \* futures 1..nc have been scheduled
@@ -107,18 +112,31 @@ Cancel(i) ==
     /\ intime' = IF now < fireT[i] THEN intime \cup {i} ELSE intime
     /\ IF i \in heap
        THEN /\ heap' = heap \ {i}
-            /\ IF watchers > 0 THEN Notify ELSE tokens' = tokens   \* (ELSE is dead code: heap # {} => watchers > 0)
+            /\ IF watchers > 0 /\ (Variant # "quietCancel" \/ heap' # {})
+               THEN Notify ELSE tokens' = tokens            \* (watchers = 0 is dead code: heap # {} => watchers > 0)
        ELSE UNCHANGED <<heap, tokens>>                       \* idx < 0: nothing at all
     /\ Log([op |-> "cancel", i |-> i])
     /\ UNCHANGED <<now, nc, fireT, watchers, pc, mis, dl, cur, started>>
 
 \* ---------------------------------------------------------------------- workers
 Exit(w) ==
+    IF Variant = "lateDecrement"
+    THEN /\ pc' = [pc EXCEPT ![w] = "leaving"]          \* gone for every purpose but the count
+         /\ UNCHANGED <<watchers, mis, heap, dl, cur, hist>>
+    ELSE /\ watchers' = watchers - 1
+         /\ pc' = [pc EXCEPT ![w] = "dead"]
+         /\ mis' = [mis EXCEPT ![w] = 0]
+         /\ IF watchers = 1 THEN Log([op |-> "idle"]) ELSE hist' = hist
+         /\ UNCHANGED <<heap, dl, cur>>
+
+\* wrong variant only: the deferred decrement, a critical section of its own
+Leave(w) ==
+    /\ pc[w] = "leaving"
     /\ watchers' = watchers - 1
     /\ pc' = [pc EXCEPT ![w] = "dead"]
     /\ mis' = [mis EXCEPT ![w] = 0]
     /\ IF watchers = 1 THEN Log([op |-> "idle"]) ELSE hist' = hist
-    /\ UNCHANGED <<heap, dl, cur>>
+    /\ UNCHANGED <<now, nc, fireT, heap, tokens, dl, cur, started, cancelled, intime>>
 
 Sleep(w, tmt) ==
     /\ pc' = [pc EXCEPT ![w] = "sleep"]
@@ -172,8 +190,8 @@ Wake(w) ==
     /\ dl' = [dl EXCEPT ![w] = 0]
     /\ UNCHANGED <<now, nc, fireT, heap, watchers, cur, started, cancelled, intime, hist>>
 
-WorkerStep(w) == Crit(w) \/ Run(w) \/ TimerFire(w) \/ Wake(w)
-WorkerEnabled(w) == \/ pc[w] \in {"crit", "run"}
+WorkerStep(w) == Crit(w) \/ Run(w) \/ TimerFire(w) \/ Wake(w) \/ Leave(w)
+WorkerEnabled(w) == \/ pc[w] \in {"crit", "run", "leaving"}
                     \/ pc[w] = "sleep" /\ (now > dl[w] \/ tokens > 0)
 
 Tick ==
@@ -195,7 +213,7 @@ FairSpec == Spec /\ WF_vars(Tick) /\ \A w \in W : WF_vars(WorkerStep(w))
 \* ------------------------------------------------------------------- invariants
 TypeOK == /\ now \in 0 .. MaxT /\ nc \in 0 .. NF /\ heap \subseteq 1 .. nc
           /\ watchers \in 0 .. MaxW /\ tokens \in 0 .. TokCap
-          /\ \A w \in W : pc[w] \in {"dead", "crit", "run", "sleep"} /\ mis[w] \in 0 .. 2
+          /\ \A w \in W : pc[w] \in {"dead", "crit", "run", "sleep", "leaving"} /\ mis[w] \in 0 .. 2
           /\ started \subseteq 1 .. nc /\ intime \subseteq cancelled /\ cancelled \subseteq 1 .. nc
 
 \* cc.watchers is exactly the number of live watcher goroutines
@@ -217,6 +235,11 @@ NoLostWakeup ==
         \/ \E w \in W : pc[w] \in {"crit", "run"}
         \/ \E w \in W : pc[w] = "sleep" /\ dl[w] <= MinFire
         \/ tokens > 0 /\ \E w \in W : pc[w] = "sleep"
+
+\* WIND-DOWN IS ARMED: with nothing pending no worker sleeps towards a distant deadline - its timer is set to at most
+\* the idle time-out, or a wake token is on its way (this is why cancel() must notify even when it empties the queue)
+WindDownArmed ==
+    heap = {} => \A w \in W : pc[w] = "sleep" => (dl[w] - now <= IdleT \/ tokens > 0)
 
 \* consequence: with prompt callbacks nothing pending is ever more than one tick overdue
 LatenessOneTick == \A i \in heap : now <= fireT[i] + 1
